@@ -40,6 +40,9 @@ CHECKS['C13'] = dict(engine='S', tech=S_TECH + ' (random-oracle model: nonces ar
 CHECKS['C14'] = dict(engine='S', tech=S_TECH + ' (random-oracle model; RNG states are recorded derivations)',
     text='bounded symbolic verification in the random-oracle model under four external-RNG fault models: every nonce the prover draws from randomness is an output of a recorded state (current transcript incl. every prover message so far, rekey with the serialised witness of ALL openings, external bytes); z3 shows the state input determines every blinding factor; pairs of runs differing in witness (same commitment), context or statement share no nonce symbol, identical runs reproduce',
     note='A1, A2, A4, A5', ref='§5 C14')
+CHECKS['C15'] = dict(engine='S', tech='symbolic execution of the real codec on buffers of opaque symbolic 32-byte elements (shapes enumerated), path conditions checked by z3',
+    text='bounded check: from_bytes/to_bytes/serde are executed on buffers whose 32-byte elements are opaque symbols, so one run covers every content of a shape; tag, element count, trailing remainder and canonicity forks are enumerated; the verdict must equal the stated acceptance set, the accepting path must have established canonicity of exactly the scalar elements (propositional query), re-encoding and serde must be the identity; prover output length formula and round trip on the lattice',
+    note='A3, A5; shapes are enumerated (tags 0..255 thorough), not symbolic: stated as such; known finding: (bits,aggregation)=(1,1) prover output has zero rounds and is refused by the decoder', ref='§5 C15')
 NA = {
 }
 def main():
